@@ -229,7 +229,11 @@ class CallMixin:
                 elif attr in self.schema.classes[k].methods:
                     sig = ("meth",)
                 else:
-                    sig = ("missing",)
+                    ca = self.repo.lookup_attr(AST_PREFIX + k, attr)
+                    if ca is not None and isinstance(ca[1], ast.expr):
+                        sig = ("classattr", ca[0].qual, ast.dump(ca[1]))  # a class-level constant, read through the instance
+                    else:
+                        sig = ("missing",)
             groups.setdefault(sig, (d, []))[1].append(k)
         sigs = sorted(groups, key=repr)
         sig = sigs[self.choose(len(sigs), f"attr({node.path}.{attr})")]
@@ -241,6 +245,9 @@ class CallMixin:
             self.event("attr_missing", node=node.path, attr=attr, kinds=tuple(ks))
             self.may_raise("builtins.AttributeError", f"{node.path}.{attr} on {','.join(ks)}", definite=True)
             raise _Raise(self.make_exc("builtins.AttributeError"), self.cur_where)
+        if sig[0] == "classattr":
+            ca = self.repo.lookup_attr(AST_PREFIX + ks[0], attr)
+            return self.eval(ca[1], {}, ca[0].module)
         if sig == ("prop",):
             self.event("node_prop", node=node.path, attr=attr, kinds=tuple(ks))
             v: V = Sym("prop", node, attr)
@@ -1223,6 +1230,18 @@ class CallMixin:
             if selfv is None or cls is None:
                 return Sym("super", NONE, "")
             return Sym("super", selfv, cls)
+        if name in ("filter", "itertools.filterfalse") and len(a) == 2 and not kwargs:
+            items = self.concrete_items(a[1])
+            if items is not None and not any(isinstance(x, Sym) and x.op in ("elemof", "star") for x in items):
+                keep_true = name == "filter"
+                out_f = PyList([])
+                out_f.created_in = self._frame_id()  # type: ignore[attr-defined]
+                out_f._loop_depth = len(self.loop_ctx)  # type: ignore[attr-defined]
+                for x in items:
+                    t = x if (isinstance(a[0], Const) and a[0].v is None) else self.call_v(a[0], [x], {}, module, node, env)
+                    if self.truthy(t, "filter") == keep_true:
+                        out_f.items.append(x)
+                return out_f
         if name == "next":
             v = a[0] if a else NONE
             if isinstance(v, PyList) and not v.loop_parts and getattr(v, "created_in", None) is not None:
